@@ -6,7 +6,8 @@
 \* own semantics are not modelled here (and a defect inside an atom cannot fail C05).
 \*   atom event: [t |-> "atom", id, ctx (document x namespace map), a (atom id), set (Seq of node ids)]
 \*   law event:  [t |-> "law", id, ctx, a, b, c, x, univ, defaultns, ab, isab, isa, isb, nota, notab,
-\*                whereab, matchesab, xisa, abc, fg1, fg2, fg3 (forgiving lists with a dropped alternative)]   (each a Seq of node ids, or <<-1>> when the call raised)
+\*                whereab, matchesab, xisa, abc, fg1, fg2, fg3 (forgiving lists with a dropped alternative),
+\*                anyuniv, anyisab, anyisba, anyisa, anyisb, anynota, anynotab (the same under an explicit *|* subject)]   (each a Seq of node ids, or <<-1>> when the call raised)
 EXTENDS Naturals, Sequences, FiniteSets, TLC, TLCExt, Json, IOUtils, SequencesExt
 VARIABLES l, row
 
@@ -26,7 +27,10 @@ Laws(e) ==
        <<"matches",      S(e.matchesab) = S(e.isab)>>,
        <<"monotone",     S(e.ab) \subseteq S(e.abc)>>,
        <<"forgiving",    S(e.fg1) = S(e.isb) /\ S(e.fg2) = S(e.isb) /\ S(e.fg3) = S(e.isab)>>,
-       <<"no-error",     \A f \in {e.ab, e.isab, e.isa, e.isb, e.nota, e.notab, e.whereab, e.matchesab, e.xisa, e.abc, e.fg1, e.fg2, e.fg3} : f # <<-1>> >> >>
+       <<"any-is-union", S(e.anyisab) = S(e.anyisa) \cup S(e.anyisb) /\ S(e.anyisba) = S(e.anyisab)>>,
+       <<"any-not",      S(e.anynota) = S(e.anyuniv) \ S(e.anyisa)>>,
+       <<"any-not-list", S(e.anynotab) = S(e.anyuniv) \ S(e.anyisab)>>,
+       <<"no-error",     \A f \in {e.ab, e.isab, e.isa, e.isb, e.nota, e.notab, e.whereab, e.matchesab, e.xisa, e.abc, e.fg1, e.fg2, e.fg3, e.anyisab, e.anyisa, e.anyisb, e.anynota, e.anynotab, e.anyisba} : f # <<-1>> >> >>
 Failed(e) == {n \in 1..Len(Laws(e)) : ~Laws(e)[n][2]}
 
 Init == l = 0 /\ row = [k \in {} |-> {}]
